@@ -49,7 +49,7 @@ pub fn gen_case(rng: &mut Rng, for_c09: bool) -> Option<Case> {
     let mut so = SchemaOpts::default_for(rng);
     so.interface_chains = true;
     so.descriptions = false;
-    let (schema, _) = gen_valid_schema(rng, &so);
+    let (mut schema, _) = gen_valid_schema(rng, &so);
     let ix = SchemaIx::new(&schema);
     let mut oo = OpOpts::standard();
     oo.max_depth = if for_c09 { 2 } else { 3 };
@@ -70,6 +70,8 @@ pub fn gen_case(rng: &mut Rng, for_c09: bool) -> Option<Case> {
     if rng.chance(1, 5) {
         scalars.push(("ID".into(), rng.s(&["string", "number||string"]).to_string()));
     }
+    // some scalars get their TypeScript types from the schema directive instead of the configuration
+    crate::gen_schema::scalars_via_directive(&mut schema, &mut scalars, SCALAR_TS, rng);
     Some(Case { schema: render_ts(&schema, None, Feat::plain()), op: render_exec(&doc, None, Feat::plain()), scalars, allow_undefined: rng.chance(2, 3) })
 }
 
